@@ -15,7 +15,7 @@ package varmq
 //                                                    parseToJob[T] on the bytes Json() produced
 //   CA <path> 1 <cps> <payloadhex> <entryhex> | CA <path> 0 <cps> - -
 //                                                    Add(...) on a stub queue: result and what was enqueued
-//   CM r|t <inhex> ok <status> <cps> <datahex> | CM r|t <inhex> parse|status|other
+//   CM r|t <class> <inhex> ok <status> <cps> <datahex> | CM r|t <class> <inhex> parse|status|other
 //                                                    parseToJob on a hand-made / mutated entry;
 //                                                    r: T = json.RawMessage (datahex = raw bytes kept),
 //                                                    t: typed T (datahex = re-marshalled)
@@ -606,7 +606,7 @@ func vcMalformedCase(r *vcRec, rng *rand.Rand) {
 	cl := vcClass(err)
 	r.stats["mal.result_"+cl]++
 	if err != nil {
-		r.p("CM r %s %s", vcHex(in), cl)
+		r.p("CM r %s %s %s", class, vcHex(in), cl)
 		if res != nil {
 			r.viol("malformed-yields-job", "error %v together with a job for entry %q", err, in)
 		}
@@ -616,7 +616,7 @@ func vcMalformedCase(r *vcRec, rng *rand.Rand) {
 		return
 	}
 	jj := res.(*job[json.RawMessage])
-	r.p("CM r %s ok %s %s %s", vcHex(in), jj.Status(), vcRunes(jj.ID()), vcHex(jj.Data()))
+	r.p("CM r %s %s ok %s %s %s", class, vcHex(in), jj.Status(), vcRunes(jj.ID()), vcHex(jj.Data()))
 	// plain-Go oracle: what is accepted is valid JSON, an object, and carries one of the five statuses
 	var generic map[string]json.RawMessage
 	if !json.Valid(in) || json.Unmarshal(in, &generic) != nil {
@@ -641,7 +641,7 @@ func vcTypedCase(r *vcRec, rng *rand.Rand) {
 		cl := vcClass(err)
 		r.stats["typed.result_"+cl]++
 		if err != nil {
-			r.p("CM t %s %s", vcHex(in), cl)
+			r.p("CM t typed %s %s", vcHex(in), cl)
 			if res != nil {
 				r.viol("malformed-yields-job", "error %v together with a job for entry %q", err, in)
 			}
@@ -652,7 +652,7 @@ func vcTypedCase(r *vcRec, rng *rand.Rand) {
 			ID() string
 			Status() string
 		})
-		r.p("CM t %s ok %s %s %s", vcHex(in), ij.Status(), vcRunes(ij.ID()), vcHex(got))
+		r.p("CM t typed %s ok %s %s %s", vcHex(in), ij.Status(), vcRunes(ij.ID()), vcHex(got))
 	}
 	switch rng.Intn(5) {
 	case 0:
